@@ -128,7 +128,10 @@ namespace c14
       bool variadic = false;
       int minp = 0, maxp = 0, nump = 0;
       std::vector<std::pair<std::string, std::string>> aliases; // alias -> real name (with :k)
-      std::function<void(RuleT&, int)> static_create;            // compile-time API route
+      std::function<void(RuleT&, int)> static_create;            // compile-time API route (static function)
+      std::function<void(RuleT&, int)> instance_create;          // factory object route
+      std::function<void(RuleT&, int, Index)> refine_static;     // RefineFactory<Factory>::create(rule, [points,] refines)
+      std::function<void(RuleT&, int, Index)> refine_instance;   // RefineFactory<Factory>([points,] refines).create(rule)
     };
     std::vector<Entry> entries;
 
@@ -146,6 +149,9 @@ namespace c14
       {
         e.variadic = true; e.minp = int(F_::min_points); e.maxp = int(F_::max_points);
         e.static_create = [](RuleT& r, int k) { F_::create(r, k); };
+        e.instance_create = [](RuleT& r, int k) { F_ f(k); f.create(r); };
+        e.refine_static = [](RuleT& r, int k, Index n) { RefineFactory<F_>::create(r, k, n); };
+        e.refine_instance = [](RuleT& r, int k, Index n) { RefineFactory<F_> rf(k, n); rf.create(r); };
       }
     };
     template<typename F_> struct Fill<F_, false>
@@ -154,6 +160,9 @@ namespace c14
       {
         e.variadic = false; e.nump = int(F_::num_points);
         e.static_create = [](RuleT& r, int) { F_::create(r); };
+        e.instance_create = [](RuleT& r, int) { F_ f; f.create(r); };
+        e.refine_static = [](RuleT& r, int, Index n) { RefineFactory<F_>::create(r, n); };
+        e.refine_instance = [](RuleT& r, int, Index n) { RefineFactory<F_> rf(n); rf.create(r); };
       }
     };
 
@@ -614,6 +623,21 @@ namespace c14
             // compile-time API route gives the identical rule
             RuleT st;
             en.entries[b.entry].static_create(st, b.k);
+            {
+              // the other compile-time routes: factory object, RefineFactory<Factory> static / object with 0..2 refinements
+              RuleT io; en.entries[b.entry].instance_create(io, b.k);
+              c.check(same_rule(base, io) && std::string(io.get_name()) == b.name, std::string(R::tag()) + " " + b.name + " :: factory-object", "Factory(n).create(rule) differs from the rule created by name");
+              for(Index nr = 0; nr <= 2; ++nr)
+              {
+                if(nr == 2 && base.get_num_points() > 2000) continue;
+                RuleT byname; DynamicFactory::create(byname, String(NameModel::compose(b.name, nr == 0 ? 0 : (long long)nr) == b.name ? "refine*0:" + b.name : NameModel::compose(b.name, (long long)nr)));
+                RuleT rs; en.entries[b.entry].refine_static(rs, b.k, nr);
+                RuleT ri(3, "x"); en.entries[b.entry].refine_instance(ri, b.k, nr);
+                c.check(same_rule(byname, rs) && std::string(rs.get_name()) == std::string(byname.get_name()), std::string(R::tag()) + " " + b.name + " :: refine-static*" + std::to_string(nr), "RefineFactory<Factory>::create(rule, [n,] refines) differs from 'refine*k:name'");
+                c.check(same_rule(byname, ri) && std::string(ri.get_name()) == std::string(byname.get_name()), std::string(R::tag()) + " " + b.name + " :: refine-object*" + std::to_string(nr), "RefineFactory<Factory>([n,] refines).create(rule) differs from 'refine*k:name'");
+                c.count("compile_time_refine_routes", 2);
+              }
+            }
             c.check(same_rule(base, st) && std::string(st.get_name()) == b.name, std::string(R::tag()) + " " + b.name + " :: static-factory", "Factory::create(rule[,n]) differs from the rule created by name");
             // documented point count of non-variadic drivers
             if(!en.entries[b.entry].variadic && std::string(b.name).find(':') == std::string::npos)
@@ -920,6 +944,7 @@ namespace c14
       "plus one case per name holding all its edit-distance-1 neighbours, per driver the out-of-range/malformed parameters, per shape the names "
       "of the other shapes; per shape all base rules created into one rule object in reverse / interleaved order; every scalar rule through Scalar::DynamicFactory. "
       "Every created rule is also created into an already filled rule, cloned, move-constructed, move-assigned into a filled rule, built through Rule(ctor_factory, factory), and (base rules) created with float weights/coordinates; "
+      "every base rule is also built through the factory object, RefineFactory<Factory>::create and RefineFactory<Factory>(..).create with 0..2 refinements (compile-time API); "
       "every refused name is also tried on a filled rule which must stay untouched. A positive case is non-trivial when the rule was created and all monomials up to its nominal degree were compared "
       "with the closed form (hash = shape+name); a negative case is non-trivial when its whole neighbourhood was probed (hash = shape+seed name).";
     spec.bounds_quick = "all rules, all aliases, refine: and refine*0/1 on every rule, refine*2/3 where points*monomials <= 1.5e8; all negative families";
